@@ -209,8 +209,6 @@ impl Screen {
             return; // No changes.
         }
 
-        // Rows that no longer exist can not be dirty.
-        self.dirty.retain(|y| *y < lines);
         self.dirty.extend(0..lines);
 
         if lines < self.lines {
@@ -240,6 +238,9 @@ impl Screen {
             self.ensure_hbounds();
         }
         self.ensure_vbounds(None);
+
+        // Rows that no longer exist can not be dirty.
+        self.dirty.retain(|y| *y < lines);
     }
 
     // Ensure the cursor is within horizontal screen bounds."""
